@@ -13,3 +13,5 @@ open GoguVerif.Theorems.C18
 #print axioms retry_spec
 #print axioms retry_calls
 #print axioms retryDelay_spaced
+#print axioms retryDelay_gapped
+#print axioms retryDelayTimes_instant
